@@ -42,6 +42,8 @@ for reg in (1, 4):
     f = api.GridFunction(s, coefficients=np.arange(1.0, s.global_dof_count + 1))
     out["pot_%d" % reg] = api.operators.potential.laplace.single_layer(s, PTS).evaluate(f)
 np.savez(sys.argv[2], **out)
+import shutil
+shutil.rmtree(getattr(api, 'TMP_PATH', '/nonexistent'), ignore_errors=True)   # the library's import-time scratch directory
 '''
 
 
